@@ -17,7 +17,7 @@ def gen_legend(rng):
     entries = []
     for _ in range(n):
         name = rng.choice(NAMES)
-        decl = "".join(rng.choice(DECL_CHARS) for _ in range(rng.below(24)))
+        decl = "".join(rng.choice(DECL_CHARS) for _ in range(rng.choice([0, 0, 1, 1]) if rng.chance(1, 5) else rng.below(24)))
         entries.append((name, decl))
     header = "# Legend:" + " " * rng.below(3)
     rows = [header]
@@ -33,6 +33,7 @@ def tag_of(names):
 
 class Check(PropertyCheck):
     id = "C16"
+    thorough_mult = 3
     lean_modules = ["Svgbob.Properties.C16"]
     assumptions = [
         "whole-pipeline model tied to the implementation end to end (bytes); legend and tag grammars additionally "
